@@ -3,7 +3,7 @@ import os
 import vlib, gen_conv, gen_units, docs
 from vlib import hx, unhx, case_line, show
 
-THEOREMS = ["C06_roundtrip", "C06_lines", "C06_quote_value_safe", "C06_write_calls", "C06_generated_services_have_no_newline", "C06_generated_services_line_count", "C06_conversion_keeps_the_shape", "C06_parsed_units_are_shaped", "C06_generated_services_are_shaped", "C06_generated_services_read_back", "C06_generated_services_are_validated", "C06_every_generated_service_reads_back", "C06_read_back_example"]
+THEOREMS = ["C06_roundtrip", "C06_lines", "C06_quote_value_safe", "C06_write_calls", "C06_generated_services_have_no_newline", "C06_generated_services_line_count", "C06_conversion_keeps_the_shape", "C06_parsed_units_are_shaped", "C06_generated_services_are_shaped", "C06_generated_services_read_back", "C06_generated_services_are_validated", "C06_every_generated_service_reads_back", "C06_read_back_example", "C06_every_generated_service_reads_back_with_dropins"]
 
 
 def inventory(ctx):
@@ -154,6 +154,11 @@ def run(ctx):
             # a value whose last line ends in a backslash, followed by an empty (or blank) line and then another entry or header: the value ends there
             text += rng.choice(["[Service]\nExecStartPre=/bin/true \\\n\nExecStartPost=/bin/false\n", "[Service]\nExecStartPre=/bin/true \\\n\n[X-Next]\nK=v\n",
                                 "[X-A]\nK=a \\\n# c\n\nL=b\n", "[Service]\nExecStartPre=/bin/true \\\n \nExecStartPost=/bin/false\n"])
+        if rng.random() < 0.08:
+            # a value that ends in a backslash once the white space after it is trimmed (TAB, CR, FF after the backslash): it must not be
+            # stored as a value that ends in a lone backslash (which would swallow the next generated line), quoted or not
+            text += rng.choice(['[Service]\nExecStartPre="starting\\\t\nRestart=always\n', "[Service]\nEnvironment='it\\\r\nRestart=on-failure\n",
+                                '[Service]\nExecStartPre=/bin/true \\\t\nRestart=always\n', '[X-A]\nK="open\\\x0c\nL=next\n'])
         if rng.random() < 0.05:
             # header left unclosed on its line, closed later: must not become a section name that spans lines
             text += rng.choice(["[X-Meta\nExecStartPre=/bin/evil\n]\nK=v\n", "[Service\nExecStart=/bin/evil\nX=]\n", "[A\n]\n"])
